@@ -146,18 +146,32 @@ def chunks {α : Type} (k : Nat) : Nat → List α → List (List α)
   | _ + 1, [] => []
   | f + 1, x :: xs => (x :: xs).take k :: chunks k f ((x :: xs).drop k)
 
-/-- the buffer of a C-contiguous integer array of item width `w` -/
-def intBytes (w : Nat) (items : List Item) : Blob := items.flatten.flatMap (leBytes w)
+/-- the bytes of one `w`-byte word in the array's byte order -/
+def wordBytes (be : Bool) (w x : Nat) : List Nat := if be then (leBytes w x).reverse else leBytes w x
+
+def ofWordBytes (be : Bool) (bs : List Nat) : Nat := ofLeBytes (if be then bs.reverse else bs)
+
+/-- the buffer of a C-contiguous integer array of item width `w` and byte order `be` (True = big-endian) -/
+def intBytes (be : Bool) (w : Nat) (items : List Item) : Blob := items.flatten.flatMap (wordBytes be w)
 
 /-! ### objects -/
 
 inductive Kind where | float | int | bool
   deriving DecidableEq, Repr
 
-/-- NumPy dtype of an array: float64, an integer of `w` bytes (signed or not), bool -/
+/-- signedness and byte order of an integer dtype (`dtype.str`: '<i4', '>u2', …) -/
+structure IntFmt where
+  signed : Bool
+  be : Bool
+  deriving DecidableEq, Repr
+
+/-- dtype 'int' as NumPy resolves it here: signed, little-endian -/
+def IntFmt.native : IntFmt := ⟨true, false⟩
+
+/-- NumPy dtype of an array: float64, an integer of `w` bytes (signed or not, either byte order), bool -/
 inductive DType where
   | float
-  | int (w : Nat) (signed : Bool)
+  | int (w : Nat) (fmt : IntFmt)
   | bool
   deriving DecidableEq, Repr
 
@@ -166,7 +180,7 @@ def DType.kind : DType → Kind
 
 /-- dtype='int' / 'float' / 'bool' as NumPy resolves them -/
 def DType.ofKind : Kind → DType
-  | .float => .float | .int => .int 8 true | .bool => .bool
+  | .float => .float | .int => .int 8 IntFmt.native | .bool => .bool
 
 /-- `_pickle_digits` entry: 'double', 'single' or a number (opaque) -/
 inductive Digits where | double | single | num
@@ -238,7 +252,7 @@ inductive VStep where
   | antimasked
   | float (d : Digits)
   /-- `dt = none` is the form written before the dtype was recorded -/
-  | int (vshape : Shape) (dt : Option (Nat × Bool))
+  | int (vshape : Shape) (dt : Option (Nat × IntFmt))
   | bool (vshape : Shape) (size : Nat)
   deriving DecidableEq, Repr
 
@@ -328,7 +342,7 @@ def valueStep (P : Params) (dt : DType) (d : Digits) (fails : Bool) (vshape : Sh
     List VStep × PV :=
   match dt with
   | .float => ([.float d], .floats (encodeFloats P d fails vshape items))
-  | .int w s => ([.int vshape (some (w, s))], .blob (P.bz2.enc (intBytes w items)))
+  | .int w s => ([.int vshape (some (w, s))], .blob (P.bz2.enc (intBytes s.be w items)))
   | .bool => ([.bool vshape (asize items)],
               .blob (P.bz2.enc (packbits (items.flatten.map fun x => x != 0))))
 
@@ -408,10 +422,10 @@ def decodeMaskLoop (P : Params) (shape : Shape) : List MStep → PM → Option P
   | _, _ => none
 
 /-- `np.frombuffer(bytes, dtype).reshape(vshape)` regrouped into items of `isz` scalars -/
-def decodeInts (w isz : Nat) (vshape : Shape) (bytes : Blob) : Option (List Item) :=
+def decodeInts (be : Bool) (w isz : Nat) (vshape : Shape) (bytes : Blob) : Option (List Item) :=
   if w = 0 ∨ bytes.length % w ≠ 0 then none
   else
-    let flat := (chunks w bytes.length bytes).map ofLeBytes
+    let flat := (chunks w bytes.length bytes).map (ofWordBytes be)
     if flat.length = size vshape then some (chunks isz flat.length flat) else none
 
 /-- pickler.py:993-1029; the list is `vals_encoding` in pop order.  The Bool threaded
@@ -420,8 +434,8 @@ def decodeValsLoop (P : Params) (s : St) (antimask : Option (List Bool)) :
     List VStep → PV → Bool → Option (PV × Bool)
   | [], v, viw => some (v, viw)
   | .int vshape dt :: rest, .blob b, viw =>
-    let ws := dt.getD (8, true)
-    match decodeInts ws.1 (size (s.numer ++ s.denom)) vshape (P.bz2.dec b) with
+    let ws := dt.getD (8, IntFmt.native)
+    match decodeInts ws.2.be ws.1 (size (s.numer ++ s.denom)) vshape (P.bz2.dec b) with
     | some items => decodeValsLoop P s antimask rest (.arr (.int ws.1 ws.2) vshape items false) viw
     | none => none
   | .bool vshape sz :: rest, .blob b, _ =>
